@@ -41,7 +41,14 @@ namespace crypto {
 			}
 			virtual void append(void const *ptr,size_t size) 
 			{
-				impl::md5_append(&state_,reinterpret_cast<impl::md5_byte_t const *>(ptr),size);
+				// md5_append takes an int: feed large buffers in pieces
+				impl::md5_byte_t const *data = reinterpret_cast<impl::md5_byte_t const *>(ptr);
+				while(size > 0) {
+					size_t chunk = size > (1u << 27) ? (1u << 27) : size;
+					impl::md5_append(&state_,data,int(chunk));
+					data += chunk;
+					size -= chunk;
+				}
 			}
 			virtual void readout(void *ptr)
 			{
